@@ -27,7 +27,7 @@ BOUND = {"quick": "2 bases x {equilibrium, 3 amplitudes x 4 patterns, 2 scales} 
 ASSUMPTIONS = ["KKT tolerance 1e-9 x scale (default path); iterative back-ends: feasible and cost within (1+1e-4) ('lsq') / (1+1e-6) ('lsq_linear') of the certified optimum; scale = max(1,|A|max) x max(1,|b|max)",
                "'lsq_linear' is judged on consistent systems only (as the statement says)",
                "with allow_negatives=True a solution with negative tensions is only required to solve the square system exactly"]
-REQUIRED_TAGS = {"all": ["rawinv_only_last_negative", "rawinv_only_first_negative", "rawinv_only_multiplier_negative", "path:inv", "path:nnls-fallback", "path:lsq", "path:lsq_linear", "rhs:velocity", "unique", "square", "wide", "active_bound", "noisy", "fixture", "angle_limited", "defaults_spelled_out", "initial_condition:zero_at", "initial_condition:previous_with_exact_zero", "use_std"]}
+REQUIRED_TAGS = {"all": ["rawinv_only_last_negative", "rawinv_only_first_negative", "rawinv_only_multiplier_negative", "path:inv", "path:nnls-fallback", "path:lsq", "path:lsq_linear", "rhs:velocity", "unique", "square", "wide", "active_bound", "noisy", "fixture", "angle_limited", "defaults_spelled_out", "initial_condition:zero_at", "initial_condition:previous_with_exact_zero", "use_std", "rhs:velocity_drift"]}
 
 
 KW_MORE = [{"initial_condition": ["zero_at", 3]}, {"initial_condition": ["ramp"]}, {"initial_condition": ["previous", 0.3, 1]}, {"initial_condition": ["zero_every", 3, 0]}]
@@ -192,7 +192,7 @@ class Solver(ProductSystem):
 
     def axes(self, base):
         return {"variant": self.variants,
-                "rhs": ["static", "velocity"],
+                "rhs": ["static", "velocity", "velocity_drift"],     # drift: the whole tissue also moves along (1, 1) at a speed of several times the number of interfaces (the multiplier, which absorbs a common drift, is then much larger than the tensions)
                 "neg": [False, True],
                 "method": [None, "lsq", "lsq_linear", "fix_stress"],
                 "map": [["m", 0.05, 0.02], ["id"]],
@@ -244,11 +244,23 @@ class Solver(ProductSystem):
         consistent = var[0] not in ("noise", "bump") and cfg["rhs"] == "static"
         if var[0] in ("noise", "bump"):
             tags.append("noisy")
-        if cfg["rhs"] == "velocity":
+        if cfg["rhs"] in ("velocity", "velocity_drift"):
             tags.append("rhs:velocity")
             post1 = SC.noise_post(0.012 * scale, 3) if post is None else (lambda j, i, p0=post, p1=SC.noise_post(0.012 * scale, 3): p1(*p0(j, i)))
+            dt = 0.5
+            if cfg["rhs"] == "velocity_drift":
+                # a common displacement of 0.01 (well inside the tracking bounds) in a time step short enough for a drift speed of
+                # 4 x (number of interfaces) along (1, 1)
+                tags.append("rhs:velocity_drift")
+                nint = max(1, len(T.internal_interfaces(at)))
+                dd = 0.01 * scale
+                dt = dd / (4.0 * nint)
+                # the non-uniform part of the motion keeps the speed it has in the plain 'velocity' case (displacement scaled with dt)
+                nz = SC.noise_post(0.012 * scale * dt / 0.5, 3)
+                post1 = nz if post is None else (lambda j, i, p0=post, p1=nz: p1(*p0(j, i)))
+                post1 = (lambda j, i, p0=post1, dz=complex(dd, dd): (lambda jj, ii: ({k_: z + dz for k_, z in jj.items()}, [[z + dz for z in pts] for pts in ii]))(*p0(j, i)))
             s, infos, ex = SC.build_series([{"at": at, "k": 3, "cmap": cm, "post": post, "time": 0.0, "lab": lab},
-                                            {"at": at, "k": 3, "cmap": cm, "post": post1, "time": 0.5, "lab": lab}])
+                                            {"at": at, "k": 3, "cmap": cm, "post": post1, "time": dt, "lab": lab}])
             if ex is not None:
                 return {"viol": [{"what": "ForSys construction raised", "detail": fsutil.exc_str(ex)}], "tags": tags, "cls": "exc"}
             r = SC.solve_frame(s, 0, at, infos[0], method=cfg["method"], allow_negatives=cfg["neg"], solve_kwargs=dict({"b_matrix": "velocity"}, **(cfg["kw"] or {})))
